@@ -59,7 +59,11 @@ def st4_band_integrated_saturation(
     band_integrated_saturation = np.empty(
         (number_of_frequencies, number_of_directions), dtype="float64"
     )
-    integration_width_radians = integration_width_degrees * np.pi / 180
+    # To note: we add a small tolerance so that directions that lie exactly on the edge
+    # of the integration window (e.g. 10 degree bins and an 80 degree window) are always
+    # included. Otherwise rounding errors in the mutual angle decide - and the result
+    # is no longer invariant under a rotation of the directional axis.
+    integration_width_radians = integration_width_degrees * np.pi / 180 + 1e-9
 
     for frequency_index in range(number_of_frequencies):
         directional_saturation_spec[frequency_index, :] = (
